@@ -386,6 +386,51 @@ def f_parent_index_no_name(it, g, pos, spell):
     return Fault("parent_index_no_name", f"{form}/{nm}", [f"Member {idx} should have an instruction that specifies corresponding field name of type {zn}, e.g. #[parent({pre}[map(field_name)] {idx}, ...)]"])
 
 
+def f_rare_diagnostic(it, g, pos, spell):
+    """documented diagnostics of seldom used corners (each transcribed from the message string in the source of the rule)"""
+    form = g.pick(["dup_child_path", "permeate_on_struct_field", "member_repeat_unterminated", "param_twice", "two_nested_parents", "unknown_nested_instruction"])
+    k = g.mark()
+    if form == "dup_child_path":
+        if it.kind != "struct":
+            return None
+        zn, nm = _new_counterpart(it, g, pos, INTO_NAMES, spell)
+        _ins(it.attrs, pos, Instr("child_parents", "child_parents", container=zn, entries=[dict(path=f"p{k}", ty=f"T{k}", hint=None), dict(path=f"p{k}", ty=f"U{k}", hint=None)], spelling=spell))
+        return Fault("rare", form, ["Ident here must be unique."])
+    if form == "permeate_on_struct_field":
+        if it.kind != "struct" or it.shape == "unit" or not it.fields:
+            return None
+        if any(a.kind in ("repeat", "stop_repeat", "skip_repeat") for f_ in it.fields for a in f_.attrs):
+            return None
+        f_ = it.fields[-1]      # nothing follows it: the only thing wrong is `permeate()` outside an enum
+        f_.attrs.append(Instr("repeat", "repeat", permeate=True, cats=[], spelling="o2o"))
+        return Fault("rare", form, ["Permeating repeat instruction is only applicable to enum variant fields."])
+    if form == "member_repeat_unterminated":
+        ms = _members(it)
+        if len(ms) < 2 or any(a.kind in ("repeat", "stop_repeat", "skip_repeat") for m in ms for a in m.attrs):
+            return None
+        ms[0].attrs.append(Instr("repeat", "repeat", permeate=False, cats=[], spelling="o2o"))
+        ms[-1].attrs.append(Instr("repeat", "repeat", permeate=False, cats=[], spelling="o2o"))
+        return Fault("rare", form, ["Previous #[repeat] instruction must be terminated with #[stop_repeat]"], parse_stage=True)
+    if form == "param_twice":
+        zn = _fresh(g)
+        pn = g.pick(["vars", "attribute", "impl_attribute", "inner_attribute", "skip_repeat", "stop_repeat"])
+        val = {"vars": [("v", "1")], "attribute": "inline", "impl_attribute": "cfg(all())", "inner_attribute": "allow(unused)", "skip_repeat": None, "stop_repeat": None}[pn]
+        val2 = {"vars": [("w", "2")]}.get(pn, val)
+        nm = g.pick(["from_owned", "owned_into", "try_from_ref", "ref_try_into"])
+        fal = "try" in nm
+        _ins(it.attrs, pos, Instr(nm, "trait", ty=zn, hint=None, err="Ep" if fal else None, params=[(pn, val), (pn, val2)], spelling=spell))
+        return Fault("rare", f"{form}/{pn}", [f"Instruction parameter '{pn}' was already set."], parse_stage=True)
+    if it.kind != "struct" or it.shape != "named":
+        return None
+    zn, nm = _new_counterpart(it, g, pos, FROM_NAMES + INTO_NAMES, spell)
+    if form == "two_nested_parents":
+        args, msg = f"a{k}, [parent(b{k}, c{k})] [parent(d{k}, e{k})] q{k}: Q{k}", "Cannot have more than one [parent(...)] instruction here"
+    else:
+        args, msg = f"a{k}, [bogus{k}(x)] b{k}", f"Instruction 'bogus{k}' is not recognized in this context"
+    _ins(it.fields, pos, Field(f"pp{k}", f"P{k}", [Instr("parent", "parent", container=zn, fields=args, spelling=spell)]))
+    return Fault("rare", form, [msg], parse_stage=True)
+
+
 def f_repeat_conflict(it, g, pos, spell):
     nm = g.pick(["from_owned", "owned_into", "map", "try_from_ref"])
     fal = nm.startswith("try")
@@ -443,6 +488,7 @@ INJECTORS = {
     "shape_mismatch": f_shape_mismatch,
     "untyped_parent": f_untyped_parent,
     "parent_index_no_name": f_parent_index_no_name,
+    "rare_diagnostic": f_rare_diagnostic,
     "repeat_conflict": f_repeat_conflict,
 }
 POSITIONS = ["first", "middle", "last"]
